@@ -12,9 +12,9 @@ from common import sx, parse_sx, err_name
 import fix_common as fc
 
 DRIVER = 'drv_C13'
-FIXED_EQ = None       # decided once per run by `eq_is_repaired()`: which of the model's two equalities describes the
-                      # implementation — `pyEq` (OrderedDict equality of group instances, the code as found) or `pyEqDict`
-                      # (plain-dict equality, after fixes/C13-group-eq-order.md).  The oracle does not depend on it.
+FIXED_EQ = None       # what the implementation's group equality is (probed, recorded in the evidence only).  The model the code
+                      # is compared with is PINNED to `pyEqDict` (plain-dict equality of group instances, /repo 02aab28): a tree
+                      # with the old order-sensitive equality disagrees with the model and fails the oracle.
 
 
 def eq_is_repaired():
@@ -32,13 +32,7 @@ def eq_is_repaired():
     return FIXED_EQ
 
 
-KNOWN_LOCAL = [
-    {'id': 'C13-group-eq-order', 'property': 'C13', 'status': 'known',
-     'signature': {'kind': 'rt', 'finding': 'group-eq-order'},
-     'what': 'a group instance whose fields were assigned in an order different from the dictionary order is written in '
-             'dictionary order (as required) but the decoded message does not compare == to the original: Group.__eq__ / '
-             'DataSegment.__eq__ compare the `values` OrderedDicts, which is order sensitive'},
-]
+KNOWN_LOCAL = []      # C13-group-eq-order is repaired in /repo 02aab28 (recorded as `fixed`, suppresses nothing)
 
 
 def report(ctx, what, replay):
@@ -313,7 +307,7 @@ def model_line_without_eqd(line):
     # ok, bytes, n, name, msg, eq, eqd, re
     if len(parts) != 8:
         return line
-    eq = parts[6] if eq_is_repaired() else parts[5]
+    eq = parts[6]           # pyEqDict column (pinned, see FIXED_EQ)
     return f'ok {parts[1]} {parts[2]} {sx_of(parts[3])} {sx_of(parts[4])} {eq} {parts[7]}'
 
 
